@@ -320,13 +320,92 @@ pub fn run(args: &Args) -> i32 {
             g.entry(f2.key.clone()).or_insert(f2).count += 1;
         }
     });
+    // Part C: every checksum the dispatch code puts on the wire (ICMP echo request, UDP classic /
+    // Paris / Dublin, IPv4 header), over packet sizes x payload patterns x sequences, decoded by the
+    // independent codec: the L4 message must verify against the (pseudo) header actually sent.
+    let wire_cells: Vec<Cell> = drive::all_cells().into_iter().filter(|c| c.privileged && !c.ext && c.proto != Proto::Tcp).collect();
+    let sizes_v4 = [28u16, 29, 30, 31, 48, 63, 64, 65, 84, 255, 256, 1023, 1024];
+    let sizes_v6 = [48u16, 49, 50, 51, 63, 64, 65, 96, 255, 256, 1023, 1024];
+    let patterns: Vec<u8> = if tier == Tier::Thorough { (0..=255).collect() } else { vec![0x00, 0x01, 0x5a, 0x7f, 0x80, 0xa5, 0xfe, 0xff] };
+    let wtasks: Vec<(usize, u16, u8)> = (0..wire_cells.len())
+        .flat_map(|c| {
+            let sizes: Vec<u16> = if wire_cells[c].v6 { sizes_v6.to_vec() } else { sizes_v4.to_vec() };
+            let patterns = patterns.clone();
+            sizes.into_iter().flat_map(move |sz| patterns.clone().into_iter().map(move |pt| (c, sz, pt)))
+        })
+        .collect();
+    let wire_n = Mutex::new(0u64);
+    mc::par_for(wtasks.len(), mc::workers(), |wi| {
+        let (c, size, pattern) = wtasks[wi];
+        let cell = wire_cells[c];
+        let p = TraceParams { packet_size: size, pattern, ..TraceParams::default() };
+        let topo = drive::topo_linear(&cell, 1, Target::Silent);
+        let net = drive::net_cfg(&cell, &p, topo, Menu::default());
+        simnet::install(net, Chooser::new(&[], 0));
+        let mut local: Vec<Finding> = vec![];
+        let mut n = 0u64;
+        if let Ok(mut ch) = drive::make_channel(&cell, &p) {
+            let dublin6 = cell.v6 && cell.strategy == MultipathStrategy::Dublin;
+            let seqs: Vec<u16> = if dublin6 { vec![33434, 33435, 33441, 33434 + 255, 33434 + 700] } else { vec![0, 1, 2, 255, 256, 33434, 33435, 40000, 0x7fff, 0x8000, 0xfffe, 0xffff] };
+            for (i, seq) in seqs.into_iter().enumerate() {
+                let probe = drive::make_probe(&cell, &p, seq, 1 + (i as u8 % 30), i % 3);
+                let before = simnet::with(|w| w.sent.len());
+                let r = mc::catch(|| ch.send_probe(probe));
+                n += 1;
+                let problem: Option<(String, String)> = match r {
+                    Err(pn) => Some((pn.key(), pn.message)),
+                    // a size the dispatch code refuses for this configuration is not a datagram
+                    Ok(Err(_)) => None,
+                    Ok(Ok(())) => simnet::with(|w| {
+                        if w.sent.len() != before + 1 {
+                            return None;
+                        }
+                        let s = w.sent.last().unwrap();
+                        let l4 = &s.wire[s.l4off..];
+                        let proto = match (cell.proto, cell.v6) {
+                            (Proto::Icmp, false) => None,
+                            (Proto::Icmp, true) => Some(wire::PROTO_ICMPV6),
+                            _ => Some(wire::PROTO_UDP),
+                        };
+                        let ps = proto.map_or(0, |pr| wire::pseudo(cell.src(), cell.dst(), pr, l4.len()));
+                        if !wire::verifies(l4, ps) {
+                            return Some((format!("wire-checksum-does-not-verify:{}", if cell.proto == Proto::Icmp { "icmp" } else { "udp" }), format!("size {size} pattern {pattern:#04x} seq {seq}: the {}-octet message does not fold to 0xFFFF", l4.len())));
+                        }
+                        if !cell.v6 && !wire::verifies(&s.wire[..s.l4off], 0) {
+                            return Some(("wire-checksum-does-not-verify:ipv4-header".to_string(), format!("size {size} seq {seq}: IPv4 header checksum")));
+                        }
+                        None
+                    }),
+                };
+                simnet::with(|w| {
+                    w.sent.clear();
+                    w.attempts.clear();
+                    w.resps.clear();
+                });
+                if let Some((key, detail)) = problem {
+                    if local.len() < 3 {
+                        local.push(Finding { key: format!("{key}@{}", cell.name()), detail, replay: json!({"check":"C13","part":"wire","cell":cell.name(),"cell_index":crate::c01::cell_index(&cell),"size":size,"pattern":pattern,"sequence":seq}), weight: (0, usize::from(size)), count: 1 });
+                    }
+                }
+            }
+            drop(ch);
+        }
+        let _ = simnet::take();
+        *wire_n.lock().unwrap() += n;
+        let mut g = findings.lock().unwrap();
+        for f2 in local {
+            g.entry(f2.key.clone()).or_insert(f2).count += 1;
+        }
+    });
+    let wn = *wire_n.lock().unwrap();
+    rep.set("wire_level_dispatches", json!(wn));
     let (n, nontrivial) = *evals.lock().unwrap();
-    let pn = *paris_n.lock().unwrap();
+    let pn = *paris_n.lock().unwrap() + wn;
     rep.merge_findings(findings.into_inner().unwrap());
     rep.set("evaluations", json!(n + pn));
     rep.set("distinct_nontrivial", json!(nontrivial + pn));
     rep.set("paris_dispatches", json!(pn));
-    rep.set("rule", json!("6 public checksum functions x every message length header..1024 (IPv4 header: 20..60) x contents {zeros, 0xFF, ramp, alternating, each single-0xFF position, junk in the checksum field} x 3 address pairs, plus all 2^16 values of the word after the skipped one; reference: 64-bit accumulate-then-fold from RFC 1071; then checksum inserted must fold to 0xFFFF. Paris: all 2^16 sequences x {v4,v6} x {fixed src, fixed dest, fixed both} through the real Channel dispatch, decoded by the independent codec. Non-trivial = content not all zero"));
+    rep.set("rule", json!("6 public checksum functions x every message length header..1024 (IPv4 header: 20..60) x contents {zeros, 0xFF, ramp, alternating, each single-0xFF position, junk in the checksum field} x 3 address pairs, plus all 2^16 values of the word after the skipped one; reference: 64-bit accumulate-then-fold from RFC 1071; then checksum inserted must fold to 0xFFFF. Paris: all 2^16 sequences x {v4,v6} x {fixed src, fixed dest, fixed both} through the real Channel dispatch, decoded by the independent codec. Wire level: every privileged ICMP/UDP cell x 12-13 packet sizes (odd/even, min..1024) x payload patterns {00,01,5a,7f,80,a5,fe,ff} (thorough: all 256) x 12 sequences through the real Channel dispatch: the emitted L4 message (and the IPv4 header, where the kernel model does not rewrite it) must verify. Non-trivial = content not all zero"));
     rep.sample(json!({"function": "udp_ipv4_checksum", "len": 9, "content": "single 0xFF at position 8", "addresses": "192.168.1.21 -> 142.250.204.142"}));
     rep.sample(json!({"paris": "udp/v6/paris/fixedboth", "sequence": 65535, "expect": "UDP checksum field 0xffff, datagram verifies"}));
     rep.assumptions = vec!["domain: whole ICMP/UDP/TCP messages (>= header size), DESIGN.md 5.10".into()];
